@@ -27,7 +27,7 @@ BUDGET = {"quick": 240, "thorough": 3000}
 def bounds(tier):
     return {"members": "0..2 over 10 contents (all), 3 over a 4-content core; plus one sparse archive whose first member is "
                        "1000000001 bytes long (10-digit size field), histories to depth 2-3", "name_styles": ["gnu", "bsd"],
-            "open_modes": ["shared fileobj", "filename"], "graph": "fixpoint",
+            "open_modes": ["shared fileobj", "filename", "shared real file object whose path now names another archive (%d archives, tree depth 2)" % 14], "graph": "fixpoint",
             "tree_depth": {"quick": "2 (3 on the 2-member core)", "thorough": "3 (4 on the 2-member core)"}[tier],
             "seek_targets": "[0, size+1]"}
 
@@ -74,6 +74,13 @@ def units(tier, seed):
                 tree = 2 if tier == "quick" else 3
             out.append({"members": members, "style": style, "mode": mode, "tree": tree})
             k += 1
+    # a real, named file object whose path has meanwhile been given to another archive
+    named = [(c,) for c in core4] + [(x, y) for x in core4[1:] for y in core4[1:]] + [(cs[7], cs[0], cs[3])]
+    for arch in named:
+        names = ["m%d" % i for i in range(len(arch))]
+        members = [(names[i], arch[i]) + META[(k + i) % 3] for i in range(len(arch))]
+        out.append({"members": members, "style": ("gnu", "bsd")[k % 2], "mode": "named", "tree": 2})
+        k += 1
     out.append({"big": True})
     return out
 
@@ -95,6 +102,9 @@ def ops_for(size):
     return o
 
 
+DECOY = arwriter.build([("decoy", b"DECOY\n", 1, 2, 3)], "gnu")
+
+
 class Run(object):
     def __init__(self, members, style, mode, path=None):
         from debian.arfile import ArFile
@@ -105,6 +115,24 @@ class Run(object):
         if mode == "shared":
             self.under = io.BytesIO(self.raw)
             self.ar = ArFile(fileobj=self.under)
+        elif mode == "named":
+            # a real file object (it has a .name); the path it was opened from now names another archive, so only the
+            # file object that was handed over can give the right answers
+            fd, p = tempfile.mkstemp(prefix="verif-c06-")
+            os.write(fd, self.raw)
+            os.close(fd)
+            self.under = open(p, "rb")
+            fd, p2 = tempfile.mkstemp(prefix="verif-c06-")
+            os.write(fd, DECOY)
+            os.close(fd)
+            os.replace(p2, p)
+            self.tmp = p
+            try:
+                self.ar = ArFile(fileobj=self.under)
+            except Exception:
+                self.under.close()
+                os.unlink(p)
+                raise
         else:
             if path is None:
                 fd, path = tempfile.mkstemp(prefix="verif-c06-")
@@ -125,6 +153,8 @@ class Run(object):
     def close(self):
         for m in self.ms:
             m.close()
+        if self.mode == "named":
+            self.under.close()
         if self.tmp:
             os.unlink(self.tmp)
 
@@ -397,7 +427,7 @@ def run_unit(u, tier, seed):
             part.states += 1
             part.outcomes["empty-archive"] += 1
             return part
-        uposs = (0, -1) if mode == "shared" else (None,)
+        uposs = (0, -1) if mode in ("shared", "named") else (None,)
         allops = [(mi, op) for mi in range(n) for op in ops_for(len(members[mi][1]))]
         # ---- graph mode: fixpoint over cursor vectors
         init = (0,) * n
